@@ -32,7 +32,7 @@ fn case_on<M: aranya_runtime::linear::IoManager>(cs: u64, unsafe_finalize: bool,
     let mut model = {
         let mut g = DagGen::new(cfg, &mut rng);
         g.fill();
-        if unsafe_finalize && args.get("degenerate").is_some() && g.rng.chance(1, 4) {
+        if unsafe_finalize && args.get("degenerate").is_some() && g.rng.chance(1, 2) {
             // Exploratory, off by default (`--set degenerate=1`): merges with one parent an
             // ancestor of the other, as a peer may send them. The unchanged runtime accepts them,
             // trips a debug assertion while braiding and applies commands twice (DESIGN.md 8);
@@ -56,6 +56,11 @@ fn case_on<M: aranya_runtime::linear::IoManager>(cs: u64, unsafe_finalize: bool,
                     break 'find;
                 }
             }
+        }
+    }
+    if std::env::var("RT_DBG").is_ok() {
+        for v in 0..model.len() {
+            eprintln!("[dag] {v}: par {:?} prio {:?} mc {}", model.node(v).par, model.node(v).prio, model.node(v).max_cut);
         }
     }
     let all = all_bits(&model);
@@ -188,6 +193,29 @@ fn case_on<M: aranya_runtime::linear::IoManager>(cs: u64, unsafe_finalize: bool,
             }
             m.sample(|| json!({"mode": case["mode"], "case_seed": case["case_seed"], "nodes": model.len(), "merges": merges, "finalize": fins, "final_heads": final_heads, "shape": format!("{shape:?}"), "dag_head": model.dag.nodes.iter().take(6).map(|n| json!({"id": short(&n.id), "par": format!("{:?}", n.par), "prio": format!("{:?}", n.prio), "ops": n.script.ops.len()})).collect::<Vec<_>>()}));
         }
+    }
+    if degenerate {
+        // Merges of comparable parents: only the parallel-finalize oracle is defined for them
+        // (the reference's applied-set and fact oracles are not, and the unchanged runtime
+        // misapplies commands behind such merges - DESIGN.md 12). Keep C05's own findings.
+        obs.findings.retain(|f| f.prop == "C05");
+        for f in &mut obs.findings {
+            f.sig = format!("comparable-merge-parents:{}", f.sig);
+        }
+        // The spurious error is a recorded finding of the unchanged tree: report it once per
+        // process and count the rest, so that it cannot crowd other signatures out of the
+        // bounded violation list or end the workload early.
+        static SPURIOUS_REPORTED: std::sync::atomic::AtomicBool = std::sync::atomic::AtomicBool::new(false);
+        let mut spurious = 0u64;
+        obs.findings.retain(|f| {
+            if f.sig.starts_with("comparable-merge-parents:spurious-parallel-finalize") {
+                spurious += 1;
+                !SPURIOUS_REPORTED.swap(true, std::sync::atomic::Ordering::Relaxed)
+            } else {
+                true
+            }
+        });
+        obs.count("comparable_merge_spurious_parallel_finalize_errors", spurious);
     }
     mons.take(obs, case);
 }
